@@ -2044,7 +2044,7 @@ class ChainedSchema(Schema):
                 | top.get(k, frozenset())
                 | gl.get(k, frozenset())
             )
-            for k in itertools.chain(base, top)
+            for k in itertools.chain(base, top, gl)
         }
 
     def _get_by_id(
